@@ -24,6 +24,32 @@ from . import simulgen as sg
 N_FULL_VALS = 6  # valuations per design on which the (expensive) per-cycle validator of the theory is evaluated
 
 
+SETTLE_TIMEOUT_S = 20
+
+
+class _Unsettled(Exception):
+    pass
+
+
+def _with_watchdog(seconds: int, fn, *args):
+    """run `fn(*args)` under a SIGALRM watchdog (main thread of the worker process)"""
+    import signal
+
+    def onalarm(signum, frame):
+        raise _Unsettled()
+
+    try:
+        old = signal.signal(signal.SIGALRM, onalarm)
+    except ValueError:  # not in the main thread: no watchdog
+        return fn(*args)
+    signal.alarm(seconds)
+    try:
+        return fn(*args)
+    finally:
+        signal.alarm(0)
+        signal.signal(signal.SIGALRM, old)
+
+
 def eval_spec(spec: dict, monitor: Callable, n_random: int, max_bits: int, vseed, only_vals=None, full_static=False,
               n_lean: int = 48) -> dict:
     """run the REAL code on one spec; lines for the Lean driver, the implementation's observation
@@ -56,7 +82,13 @@ def eval_spec(spec: dict, monitor: Callable, n_random: int, max_bits: int, vseed
         vals, exh = [tuple(v) for v in only_vals], False
     else:
         vals, exh = sg.valuations(b.spec, rng, n_random, max_bits)
-    obs = sg.simulate(b, vals)
+    try:
+        obs = _with_watchdog(SETTLE_TIMEOUT_S + len(vals) // 40, sg.simulate, b, vals)
+    except _Unsettled:
+        # the real circuit does not settle in pysim: a combinational loop through run/ready/enable signals
+        out["viol"] = (f"the elaborated circuit does not settle in pysim within {SETTLE_TIMEOUT_S}s on the first valuations "
+                       "(combinational loop through run/enable signals?)")
+        return out
     out["nvals"] = len(vals)
     out["exhaustive"] = exh
     idx = list(range(len(vals)))
@@ -151,7 +183,8 @@ def lean_outputs(ctx: Check, driver: str, batches: list[list[str]], procs: int) 
 
 # ------------------------------------------------------------------------------------ main entry
 def run_simul(ctx: Check, pid: str, gen: Callable, monitor: Callable, directed: list[dict], witness_specs: Callable,
-              nontrivial: Callable, n_quick: int, n_thorough: int):
+              nontrivial: Callable, n_quick: int, n_thorough: int, descriptor: Optional[Callable] = None):
+    _descriptor = descriptor or (lambda spec: {"tag": spec.get("tag")})
     tm0 = time.time()
     for k in range(4):
         try:
@@ -283,29 +316,6 @@ def run_simul(ctx: Check, pid: str, gen: Callable, monitor: Callable, directed: 
         ctx.divergence(f"corr:{pid.lower()}-simultaneous", detail, search)
     ctx.exhaustive = False
     ctx.note(f"{len(results)} cases: real elaboration+pysim+monitor {sum(r['t_eval'] for r in results):.1f}s (summed over workers)")
-
-
-def _descriptor(spec: dict) -> dict:
-    """canonical descriptor of a case for known-findings matching"""
-    nx_multi = False
-    callers: dict[str, int] = {}
-
-    def walk(block):
-        for s in block:
-            if s["k"] == "call":
-                callers[s["m"]] = callers.get(s["m"], 0) + 1
-            elif s["k"] == "cond":
-                for br in s["branches"]:
-                    walk(br["block"])
-            elif s["k"] == "trans":
-                walk(s["block"])
-
-    for it in spec["items"]:
-        walk(it["block"])
-    for it in spec["items"]:
-        if it["k"] == "method" and it.get("nx") and callers.get(it["name"], 0) >= 2 and any(s["k"] == "cond" for s in it["block"]):
-            nx_multi = True
-    return {"condition_in_nonexclusive_method_with_several_callers": nx_multi, "tag": spec.get("tag")}
 
 
 def _count(ctx: Check, r: dict):
